@@ -444,6 +444,10 @@ func (ue *UnaryExpression) WriteTo(cw *CodeWriter) {
 	cw.separateSigns(ue.Operator)
 	cw.AddMapping(ue.Token.Start)
 	cw.WriteString(ue.Operator)
+	if inner, ok := ue.Right.(*UnaryExpression); ok && ue.Operator == "!" && inner != nil && inner.Operator == "--" {
+		// `!--x` right after `<` would read as the HTML-like comment opener `<!--`
+		cw.WriteRune(' ')
+	}
 	// Right side needs parens if its precedence is lower than unary
 	if ue.Right.Precedence() < PrecedenceUnary {
 		cw.WriteRune('(')
